@@ -788,12 +788,10 @@ def _design_runs(ctx, quick, ncpu):
                 label="laws on all annotation trees <= 4 nodes")
     ctx.note("law_trees_checked", r.distinct)
     if not quick:
-        r = ctx.tlc("MC_Query", "MC_Query_small.cfg", workers=ncpu, env=JAVA_ENV, timeout=1500,
-                    label="laws, medium query universes, trees <= 4 nodes")
         r = ctx.tlc("MC_Query", "MC_Query_big.cfg", workers=ncpu, env=JAVA_ENV, timeout=1500,
                     label="laws, larger query universes, trees <= 4 nodes")
         r = ctx.tlc("MC_Query", "MC_Query_deep.cfg", workers=ncpu, env=JAVA_ENV, timeout=1800,
-                    label="laws on all annotation trees <= 5 nodes")
+                    label="laws, medium query universes, all annotation trees <= 5 nodes")
         ctx.note("law_trees_checked", r.distinct)
     # sensitivity: broken variants of the semantics must violate the laws; vacuity guards must fail
     for cfg, inv in [("MC_Query_nodisjoint.cfg", "AndDistinctTags"), ("MC_Query_asym.cfg", "AndSymmetric"),
@@ -933,7 +931,7 @@ def run(ctx):
     ctx.note("gen_searches_on_code", nsearch)
 
     # ---- 5. binding A/B: random deep cases over the real vocabulary, judged by TLC --------------
-    ndeep = 600 if quick else 12000
+    ndeep = 600 if quick else 9000
     vocab, cases, used = build_deep_cases(f, ctx.rng, fams, ndeep, 9 if quick else 12)
     path = os.path.join(ctx.work, "deep.json")
     with open(path, "w") as fh:
